@@ -1,0 +1,14 @@
+//go:build verif
+
+package cacheleveldown
+
+// Contracts for the verification machinery in /verif (comment-only file, build tag verif).
+
+// datastoreKey (C09 C05): the key under which the cache manager memoises (and, on disk, stores) a database's
+// datastore is built from the directory, the manifest root and the name: two databases that differ in their
+// root or in their name never share a datastore, whatever the directory (":memory:" included).
+//@ func datastoreKey
+//@   props C09 C05
+//@   requires dbAddress != nil
+//@   ensures result == pjoin(strs(directory, pjoin(strs(cidStr(addrRoot(dbAddress)), addrPath(dbAddress)))))
+//@   modifies nothing
